@@ -11,8 +11,17 @@ uint8_t vf_unwinding = 0;
 uint32_t vf_jmpval = 0;
 
 uint32_t vf_cv_snap[VF_MAXT];
+#ifdef VF_CV_SPURIOUS
+/* unit option spurious=N: up to N times per execution a waiting thread returns from condition_variable::wait without a
+ * notification (the standard allows it); no happens-before edge.  The deadlock probe still counts the waiter as blocked. */
+uint8_t vf_cv_spurious_left = VF_CV_SPURIOUS;
+#endif
 void vf_cv_wait_block(char* cv, char* lk) {
-  if (*(uint32_t*)cv == vf_cv_snap[vf_cur]) { VF_BLOCK(); return; }
+  if (*(uint32_t*)cv == vf_cv_snap[vf_cur]) {
+#ifdef VF_CV_SPURIOUS
+    if (!vf_probe_mode && vf_cv_spurious_left && (vf_nondet_u8() & 1)) { --vf_cv_spurious_left; return; }
+#endif
+    VF_BLOCK(); return; }
   vf_hb_edge_in(cv);
 }
 void vf_cv_wait_relock(char* cv, char* lk) { (void)x_pthread_mutex_lock(*(char**)lk); }
